@@ -146,7 +146,9 @@ var domains = map[fieldID][]fval{
 	fMask:        {natv(0), natv(1), natv(4), natv(7)},
 	fExpiration:  {natv(0), natv(1000), natv(1 << 63)},
 	fPersistency: {natv(0), natv(1), natv(2), natv(7)},
-	fMtu:         {natv(0), natv(1), natv(21), natv(22), natv(30), natv(127), natv(128), natv(1500), natv(8800), natv(8801), natv(1 << 63)},
+	// 64 = defn.MinMTU; 72 / 84 = the NDNLP header of a fragmenting face (26, 38 with incoming face
+	// indication) + a 32-byte PIT token (34) + a congestion mark (12): no payload byte left
+	fMtu: {natv(0), natv(1), natv(21), natv(22), natv(30), natv(63), natv(64), natv(72), natv(73), natv(84), natv(85), natv(127), natv(128), natv(1500), natv(8800), natv(8801), natv(1 << 63)},
 	fStrategy: {
 		strv(strategyPrefix + "/multicast"),
 		strv(strategyPrefix + "/best-route"),
